@@ -29,15 +29,7 @@ import (
 
 func TestSim(t *testing.T) { common.Main(t, common.Harness{Property: "C11", Run: run}) }
 
-var (
-	debug  = os.Getenv("C11_DEBUG") != ""
-	strict = os.Getenv("C11_STRICT") != ""
-)
-
-// privateKnown: candidate findings reported to the lead, not yet classified (see world.violate).
-var privateKnown = map[string]bool{
-	"C11/reservation-cap-exceeded/after-refused-refresh": true,
-}
+var debug = os.Getenv("C11_DEBUG") != ""
 
 func (w *world) exec(op opT) string {
 	switch op.kind {
